@@ -259,7 +259,7 @@ theorem columnErrors_nil_iff (T : ScopeTable) (spec : ColSpec) (D : Frame)
 
 theorem jointUniqueErrors_nil_iff (T : ScopeTable) (S : Schema) (D : Frame) :
     jointUniqueErrors T .schemaAndData S D = [] ↔
-      (S.unique ≠ [] → Spec.rowsDistinct
+      (S.unique ≠ [] → (S.unique.filter D.hasCol).filterMap D.col? ≠ [] → Spec.rowsDistinct
         (rowsOf D.nrows (((S.unique.filter D.hasCol).filterMap D.col?).map (·.vals)))) := by
   unfold jointUniqueErrors
   simp only [optRuns_sad, Bool.true_and]
@@ -268,9 +268,13 @@ theorem jointUniqueErrors_nil_iff (T : ScopeTable) (S : Schema) (D : Frame) :
   | cons u us =>
     simp only [List.isEmpty_cons, Bool.not_false, ↓reduceIte, ne_eq, reduceCtorEq, not_false_eq_true,
       forall_const]
-    rw [← dupRowMask_allFalse_iff S.reportDup, ← truePositions_nil_iff]
-    cases hd : truePositions (dupRowMask S.reportDup
-      (rowsOf D.nrows (List.map (fun x => x.vals) (List.filterMap D.col? (List.filter D.hasCol (u :: us)))))) <;> simp
+    cases hc : List.filterMap D.col? (List.filter D.hasCol (u :: us)) with
+    | nil => simp
+    | cons c cs =>
+      simp only [List.isEmpty_cons, Bool.false_eq_true, ↓reduceIte, reduceCtorEq, not_false_eq_true, forall_const]
+      rw [← dupRowMask_allFalse_iff S.reportDup, ← truePositions_nil_iff]
+      cases hd : truePositions (dupRowMask S.reportDup
+        (rowsOf D.nrows (List.map (fun x => x.vals) (c :: cs)))) <;> simp
 
 theorem indexErrors_nil_iff (T : ScopeTable) (spec : ColSpec) (D : Frame)
     (hfit : ∀ l ∈ D.index, ∀ v ∈ l.vals, valFits l.dtype v = true)
